@@ -363,6 +363,19 @@ func explore(ws []*workerProc, e *Entry, tc TierCfg) (*EntryResult, error) {
 					}
 					if violSeen[k] <= lim {
 						res.Violations = append(res.Violations, v)
+						continue
+					}
+					// prefer the simplest witnesses of a class: fewest fault/flag bits set
+					worst, wi := -1, -1
+					for i, o := range res.Violations {
+						if o.Kind+"|"+o.Msg == k {
+							if c := oneBits(o.Model); c > worst {
+								worst, wi = c, i
+							}
+						}
+					}
+					if wi >= 0 && oneBits(v.Model) < worst {
+						res.Violations[wi] = v
 					}
 				}
 				if res.Paths >= maxPaths && len(work) > 0 {
@@ -381,6 +394,16 @@ func explore(ws []*workerProc, e *Entry, tc TierCfg) (*EntryResult, error) {
 	wg.Wait()
 	res.WallS = time.Since(t0).Seconds()
 	return res, firstErr
+}
+
+func oneBits(m []interp.SymVar) int {
+	n := 0
+	for _, v := range m {
+		if v.Width == 1 && v.Value != 0 {
+			n++
+		}
+	}
+	return n
 }
 
 func trimPC(pc []string) []string {
